@@ -143,7 +143,38 @@ def shard_files(wd, pattern, n):
 
 
 def gen(ctx, drv, wd, n):
-    return oc.run_shards(drv, lambda i: ["gen", ctx.tier, i, n], n, lambda i: wd / ("cases.%d.txt" % i), ctx.seed)
+    raw = oc.run_shards(drv, lambda i: ["gen", ctx.tier, i, n], n, lambda i: wd / ("cases.raw.%d.txt" % i), ctx.seed)
+    return balance_cases(raw, wd, n)
+
+
+def balance_cases(files, wd, n):
+    """the driver deals case k to shard k mod n, which puts all boundary-size meshes (65535 vertices, 32767 faces ...) of the
+    three mesh kinds on one shard; every later stage costs time proportional to the bytes of a case, so the CASE..END blocks
+    are re-dealt largest first onto the currently lightest shard (deterministic: ties by case order)"""
+    blocks = []
+    for f in files:
+        cur = []
+        with open(f) as h:
+            for l in h:
+                if l.startswith("CASE ") and cur:
+                    blocks.append(cur); cur = []
+                cur.append(l)
+        if cur:
+            blocks.append(cur)
+        Path(f).unlink()
+    order = sorted(range(len(blocks)), key=lambda k: (-sum(len(l) for l in blocks[k]), k))
+    load = [0] * n
+    dealt = [[] for _ in range(n)]
+    for k in order:
+        i = min(range(n), key=lambda j: (load[j], j))
+        load[i] += sum(len(l) for l in blocks[k])
+        dealt[i].append(k)
+    outs = [wd / ("cases.%d.txt" % i) for i in range(n)]
+    for i, o in enumerate(outs):
+        with open(o, "w") as h:
+            for k in sorted(dealt[i]):
+                h.writelines(blocks[k])
+    return outs
 
 
 def count_cases(files):
